@@ -22,16 +22,26 @@ pub(super) struct MulAddFusion<F> {
     backwards_computed: HashMap<WitnessId, usize>,
     /// Witnesses written by more than one op (slot shared through `connect`).
     multi_def: hashbrown::HashSet<WitnessId>,
+    /// Witnesses set from outside the op list (private inputs): defined before any op runs.
+    external: hashbrown::HashSet<WitnessId>,
 }
 
 impl<F: Field> MulAddFusion<F> {
     /// Scans `ops` to build use-counts, definitions, and backwards-op tracking.
+    #[cfg_attr(not(test), allow(dead_code))]
     pub(super) fn new(ops: &[Op<F>]) -> Self {
+        Self::with_external_defs(ops, &[])
+    }
+
+    /// Like [`Self::new`], additionally treating `external` witnesses (private inputs, which
+    /// have no defining op) as already defined when the first op runs.
+    pub(super) fn with_external_defs(ops: &[Op<F>], external: &[WitnessId]) -> Self {
         let mut fusion = Self {
             use_counts: HashMap::new(),
             defs: HashMap::with_capacity(ops.len()),
             backwards_computed: HashMap::new(),
             multi_def: hashbrown::HashSet::new(),
+            external: external.iter().copied().collect(),
         };
         fusion.scan_use_counts(ops);
         fusion.scan_defs(ops);
@@ -58,12 +68,12 @@ impl<F: Field> MulAddFusion<F> {
     }
 
     fn is_backwards(&self, idx: usize, out: &WitnessId) -> bool {
-        self.def_idx(out).is_some_and(|i| i < idx)
+        self.external.contains(out) || self.def_idx(out).is_some_and(|i| i < idx)
     }
 
     /// Inserts a def unless the witness is already a Const (connect aliasing).
     fn insert_def(&mut self, id: WitnessId, idx: usize, def: OpDef<F>) {
-        if self.defs.contains_key(&id) {
+        if self.defs.contains_key(&id) || self.external.contains(&id) {
             self.multi_def.insert(id);
         }
         if !self.is_const(&id) {
